@@ -154,6 +154,45 @@ def window_table_references():
     return hits
 
 
+def value_equal_section(rep, rng, tier):
+    """Pairing works on (thread, code, qualifier) and on the ORDER of the records: it may not look at what else a record
+    holds.  Each history is fed once as generated (distinct timestamps, random words) and once with every record stamped
+    with the same tick and all-zero words — records of one (thread, code, qualifier) are then equal as VALUES (Kevent is
+    a tuple), which the kernel does produce for back-to-back identical calls on one tick — and the delivered windows are
+    compared record by record through object identity."""
+    from pykdebugparser.kevent import from_kd_buf
+    from ..impl import record_args
+    sec = rep.section('pairing-value-equal')
+    sec['rule'] = ('seeded histories of section `pairing` fed a second time with all timestamps and argument words equal '
+                   '(value-equal records); windows identified by object identity must be those of the first run')
+    n = 400 if tier == 'quick' else 1 if tier == 'replay-one' else 12000
+    for _ in range(n):
+        case = P.gen_history_case(rng, maxlen=24)
+        sec['cases'] += 1
+        try:
+            first = P.feed_all(P.stub_parser(case), P.kevents(case), False)
+            want = ['-' if o is None else o[0] for o in first]
+            evs = [from_kd_buf(record_args(7, [0, 0, 0, 0], e[1], e[2] | e[3])) for e in case['events']]
+            stamp = {id(k): str(e[0]) for k, e in zip(evs, case['events'])}
+            parser = P.stub_parser(case)
+            have = []
+            for k in evs:
+                r = parser.feed(k)
+                have.append('-' if r is None else ','.join(stamp.get(id(x), '?') for x in r.ktraces))
+        except Exception as e:
+            rep.add_failure('pairing:raises', 'feeding value-equal records raised ' + core.err_name(e),
+                            {'section': 'pairing-value-equal', 'case': case})
+            continue
+        if have != want:
+            i = next(k for k, (a, b) in enumerate(zip(have, want)) if a != b)
+            rep.add_failure('pairing:depends-on-record-values',
+                            'event %d of the history delivers the window %s when the records carry distinct timestamps and '
+                            'words, and %s when all records of a (thread, code, qualifier) are equal values'
+                            % (i, want[i], have[i]), {'section': 'pairing-value-equal', 'case': case})
+        elif any(',' in w for w in want):
+            sec['distinct_nontrivial'] += 1
+
+
 def correspondence(rep, rng, tier):
     hits = window_table_references()
     rep.notes.append('window tables are referenced only in traces_parser.py: %s' % (not hits))
@@ -178,6 +217,7 @@ def correspondence(rep, rng, tier):
         first = False
     P.shrink_failures(rep, 'pairing', impl_stub, P.oracle_per_event, lambda c: P.line('pairg', c))
     P.shrink_failures(rep, 'pairing-pregate', impl_pregate, oracle_pregate, lambda c: P.line('pair', c))
+    value_equal_section(rep, rng, tier)
     codes = P.real_alphabet()
     m = 1500 if tier == 'quick' else 20000
     rcases = [gen_real_case(rng, codes) for _ in range(m)]
@@ -200,6 +240,29 @@ def replay(path):
         print('nothing to replay (no failing input was recorded):', r.get('no_longer_checks'))
         return 1
     case, sec = rp['case'], rp.get('section', 'pairing')
+    if sec == 'pairing-value-equal':
+        class _R:                                    # re-run the one case through the section itself
+            def __init__(self):
+                self.failures, self.secs = [], {}
+            def section(self, n):
+                return self.secs.setdefault(n, {'cases': 0, 'distinct_nontrivial': 0})
+            def add_failure(self, sig, what, rp_):
+                self.failures.append((sig, what))
+        import random as _random
+        rr = _R()
+        orig = P.gen_history_case
+        P.gen_history_case = lambda rng, maxlen=24: case
+        try:
+            _n = value_equal_section.__code__
+            value_equal_section(rr, _random.Random(0), 'replay-one')
+        finally:
+            P.gen_history_case = orig
+        for sig, what in rr.failures[:1]:
+            print('oracle:', sig, '-', what)
+            print(f'VIOLATION property=C04 replay={path}')
+            return 1
+        print('oracle: property holds on this input')
+        return 0
     cmd, impl_fn, oracle = SECTIONS[sec]
     try:
         got = impl_fn(case)
